@@ -71,6 +71,7 @@ func (f *FindIf) Call(s *slip.Scope, args slip.List, depth int) (found slip.Obje
 
 	switch ta := args[1].(type) {
 	case nil:
+		sfv.checkBounds(s, depth, 0)
 		// nothing found
 	case slip.List:
 		found = f.inList(s, ta, depth, &sfv)
@@ -87,14 +88,8 @@ func (f *FindIf) Call(s *slip.Scope, args slip.List, depth int) (found slip.Obje
 }
 
 func (f *FindIf) inList(s *slip.Scope, seq slip.List, depth int, sfv *seqFunVars) slip.Object {
-	if len(seq) <= sfv.start {
-		return nil
-	}
-	if 0 <= sfv.end && sfv.end < len(seq) {
-		seq = seq[sfv.start:sfv.end]
-	} else {
-		seq = seq[sfv.start:]
-	}
+	sfv.checkBounds(s, depth, len(seq))
+	seq = seq[sfv.start:sfv.end]
 	d2 := depth + 1
 	if !sfv.fromEnd {
 		for _, element := range seq {
@@ -121,14 +116,8 @@ func (f *FindIf) inList(s *slip.Scope, seq slip.List, depth int, sfv *seqFunVars
 
 func (f *FindIf) inString(s *slip.Scope, seq slip.String, depth int, sfv *seqFunVars) (found slip.Object) {
 	ra := []rune(seq)
-	if len(ra) <= sfv.start {
-		return nil
-	}
-	if 0 <= sfv.end && sfv.end < len(ra) {
-		ra = ra[sfv.start:sfv.end]
-	} else {
-		ra = ra[sfv.start:]
-	}
+	sfv.checkBounds(s, depth, len(ra))
+	ra = ra[sfv.start:sfv.end]
 	d2 := depth + 1
 	var key slip.Object
 	if !sfv.fromEnd {
@@ -156,14 +145,8 @@ func (f *FindIf) inString(s *slip.Scope, seq slip.String, depth int, sfv *seqFun
 
 func (f *FindIf) inOctets(s *slip.Scope, seq slip.Octets, depth int, sfv *seqFunVars) (found slip.Object) {
 	ba := []byte(seq)
-	if len(ba) <= sfv.start {
-		return nil
-	}
-	if 0 <= sfv.end && sfv.end < len(ba) {
-		ba = ba[sfv.start:sfv.end]
-	} else {
-		ba = ba[sfv.start:]
-	}
+	sfv.checkBounds(s, depth, len(ba))
+	ba = ba[sfv.start:sfv.end]
 	d2 := depth + 1
 	var key slip.Object
 	if !sfv.fromEnd {
